@@ -22,20 +22,20 @@ Theorem C04_history_coherent : forall (C V : Type) (E : C -> V) (ceq : C -> C ->
 Proof. exact run_coherent. Qed.
 Print Assumptions C04_history_coherent.
 Theorem C04_at_most_one_evaluation_per_evaluated_trial : forall (C V : Type) (E : C -> V) (ceq : C -> C -> bool) os (s : cst C V),
-  total_cost C V E ceq os s <= length (filter (reached C) os).
+  total_cost C V E ceq os s <= length (filter (reached C) os) + length (filter (edited C) os).
 Proof. exact total_cost_le. Qed.
 Print Assumptions C04_at_most_one_evaluation_per_evaluated_trial.
-(* the initial reference energy *)
-Theorem C04_initial_reference : forall (C V : Type) (E : C -> V) (ceq : C -> C -> bool), (forall a b, ceq a b = true <-> a = b) ->
-  forall (s : cst C V), last_e s = None -> (forall a e, catoms s = Some a -> cres s = Some e -> e = E a) ->
+(* the reference energy at the start of EVERY run (the first one, one after a restart, one after the user changed the atoms between two runs:
+   outcome `Edited` in the histories above): coherent whatever the calculator held, at most one evaluation *)
+Theorem C04_reference_at_run_start : forall (C V : Type) (E : C -> V) (ceq : C -> C -> bool), (forall a b, ceq a b = true <-> a = b) ->
+  forall (s : cst C V), (forall a e, catoms s = Some a -> cres s = Some e -> e = E a) ->
   Coherent C V E ceq (validate C V E ceq s) /\ evals (validate C V E ceq s) <= S (evals s).
 Proof. exact validate_coherent. Qed.
-Print Assumptions C04_initial_reference.
-
+Print Assumptions C04_reference_at_run_start.
 (* non-vacuity and an executable instance: configurations and energies are integers, E = successor *)
 Example C04_nonvacuous :
   let s0 := validate nat nat S Nat.eqb (Build_cst 5 None None 5 None None 0) in
-  evals (run nat nat S Nat.eqb [Accepted 6; Rejected 7; Failed; Rejected 6; Accepted 9] s0) = 4 /\
-  cfg (run nat nat S Nat.eqb [Accepted 6; Rejected 7; Failed; Rejected 6; Accepted 9] s0) = 9 /\
-  last_e (run nat nat S Nat.eqb [Accepted 6; Rejected 7; Failed; Rejected 6; Accepted 9] s0) = Some 10.
+  evals (run nat nat S Nat.eqb [Accepted 6; Rejected 7; Failed; Edited 8; Rejected 6; Accepted 9] s0) = 6 /\
+  cfg (run nat nat S Nat.eqb [Accepted 6; Rejected 7; Failed; Edited 8; Rejected 6; Accepted 9] s0) = 9 /\
+  last_e (run nat nat S Nat.eqb [Accepted 6; Rejected 7; Failed; Edited 8; Rejected 6; Accepted 9] s0) = Some 10.
 Proof. repeat split; reflexivity. Qed.
